@@ -149,42 +149,58 @@ func checkC02(c *Ctx, r *Report) {
 			r.Rule("rakp2-authcode-verified", "", 1)
 			r.Unk(name+"|success paths", m.Fn.Pos(), "no path returns the session literal")
 		}
-		// mismatch arms
+		// mismatch arms: every path that takes the mismatch edge returns no session and the right error
 		r.Rule("mismatch-errors", "RAKP2 mismatch returns the incorrect-password sentinel; RAKP4 mismatch returns a non-nil error; neither returns a session", 2)
 		for _, cm := range cmps {
 			if cm.kind == "" {
 				continue
 			}
-			mis := cm.ifi.Block().Succs[1]
-			if !cm.trueSucc {
-				mis = cm.ifi.Block().Succs[0]
-			}
-			ret, isRet := mis.Instrs[len(mis.Instrs)-1].(*ssa.Return)
-			ok := false
-			why := "the mismatch arm does not return immediately"
-			if isRet {
-				sessNil := isNilConst(ret.Results[0])
-				ev := ret.Results[1]
+			ok, n := true, 0
+			why := ""
+			enumPaths(m.Fn, 2, 200000, func(p CPath) {
+				arm, on := p.Took(cm.ifi)
+				if !on || arm == cm.trueSucc {
+					return
+				}
+				ret, isRet := p.Last().(*ssa.Return)
+				if !isRet {
+					return
+				}
+				n++
+				sess := p.Resolve(ret.Results[0])
+				ev := p.Resolve(ret.Results[1])
+				if !isNilConst(sess) {
+					ok, why = false, "a session is returned although the comparison failed"
+					return
+				}
 				switch cm.kind {
 				case "rakp2":
-					ld, isLd := ev.(*ssa.UnOp)
-					if isLd {
+					good := false
+					if ld, isLd := ev.(*ssa.UnOp); isLd {
 						if g, isG := ld.X.(*ssa.Global); isG && g.Name() == "ErrIncorrectPassword" && c.sentinelError(g) {
-							ok = sessNil
+							good = true
 						}
 					}
-					why = "RAKP2 AuthCode mismatch does not return (nil, ErrIncorrectPassword)"
+					if !good {
+						ok, why = false, "RAKP2 AuthCode mismatch does not return (nil, ErrIncorrectPassword)"
+					}
 				case "rakp4":
+					good := false
 					if call, isCall := ev.(*ssa.Call); isCall {
-						n := calleeName(&call.Call)
-						ok = sessNil && (n == "fmt.Errorf" || n == "errors.New")
+						nn := calleeName(&call.Call)
+						good = nn == "fmt.Errorf" || nn == "errors.New"
 					} else if ld, isLd := ev.(*ssa.UnOp); isLd {
 						if g, isG := ld.X.(*ssa.Global); isG && c.sentinelError(g) {
-							ok = sessNil
+							good = true
 						}
 					}
-					why = "RAKP4 ICV mismatch does not return (nil, non-nil error)"
+					if !good {
+						ok, why = false, "RAKP4 ICV mismatch does not return (nil, non-nil error)"
+					}
 				}
+			})
+			if n == 0 {
+				ok, why = false, "no path takes the mismatch arm"
 			}
 			r.Check(ok, name+"|"+cm.kind+" mismatch", cm.ifi.Pos(), "mismatch → error, no session", why)
 		}
